@@ -174,6 +174,26 @@ def run(ctx, scale=1):
         if len(earlier) > 40:
             earlier.pop(0)
 
+    # ---- every tree shape the repository's own tests know (expected trees and format() arguments): format must
+    # leave its argument alone and give the same text again, and for an equal copy
+    import corpus as _corpus
+    for t in _corpus.format_trees():
+        snap = C.cdump(C.canon(t))
+        f1 = R.format_raw(t)
+        rep.count("format_checks_test_trees")
+        rep.case("fmt-tree:" + snap[:300])
+        if C.cdump(C.canon(t)) != snap:
+            rep.finding("format-mutates-argument", "format changed its argument %s into %s" % (snap[:160], C.cdump(C.canon(t))[:160]),
+                        {"kind": "format-tree", "tree": json.loads(snap)})
+            continue
+        if f1[0] != "ok":
+            continue
+        f2 = R.format_raw(t)
+        f3 = R.format_raw(C.uncanon(json.loads(snap)))
+        if f2[:2] != f1[:2] or f3[:2] != f1[:2]:
+            rep.finding("format-not-deterministic", "format gives %r, then %r, and %r for an equal copy (%s)" % (f1[1][:70], f2[1][:70], f3[1][:70], snap[:100]),
+                        {"kind": "format-tree", "tree": json.loads(snap)})
+
     # ---- earlier results must not have been modified by later calls
     for sql, tree, snap in earlier:
         if C.cdump(C.canon(tree)) != snap:
@@ -257,6 +277,12 @@ def replay(ctx, p):
         after = [C.cdump(R.parse(s, dd, **k)) for dd, s, k in PROBES]
         print([i for i, (a, b) in enumerate(zip(before, after)) if a != b])
         return before != after
+    if p["kind"] == "format-tree":
+        t = C.uncanon(p["tree"])
+        snap = C.cdump(C.canon(t))
+        f1 = R.format_raw(t)
+        f2 = R.format_raw(t)
+        return C.cdump(C.canon(t)) != snap or f1[:2] != f2[:2]
     if p["kind"] == "format":
         r = R.parse_raw(p["sql"], d)
         snap = C.cdump(C.canon(r[1]))
